@@ -656,7 +656,8 @@ fn slow_fragments_scenario(r: &mut Report, seed: u64, k: u64) {
     let state = Arc::new(St { log: Mutex::new(Vec::new()) });
     let (ws_tx, ws_rx) = channel();
     let (app_tx, app_rx) = channel();
-    let mut wsapp: AsyncWebsocketApp<Arc<St>> = AsyncWebsocketApp::new_unlinked_with_config(state.clone(), 2).with_polling_interval(poll).with_shutdown(ws_rx);
+    let mut wsapp: AsyncWebsocketApp<Arc<St>> = AsyncWebsocketApp::new_unlinked_with_config(state.clone(), 1).with_polling_interval(poll).with_shutdown(ws_rx);
+    // (one handler thread: with several, two messages dispatched in order may reach the log in either order)
     wsapp.on_connect(|s: AsyncStream, st: Arc<Arc<St>>| {
         st.log.lock().unwrap().push((Ev::Connect(s.peer_addr()), Instant::now()));
     });
